@@ -960,6 +960,19 @@ func (fr *Frame) enterLoop(h *ssa.BasicBlock, li *loopInfo, order []*ssa.BasicBl
 		if !ok {
 			break
 		}
+		// an object of this function that enters the loop through a phi is from here on known by a name the
+		// escape analysis cannot follow: it is no longer treated as unescaped
+		for i, pp := range h.Preds {
+			for _, e := range entries {
+				if pp == e && i < len(phi.Edges) {
+					if ev, ok := fr.env[phi.Edges[i]]; ok {
+						fc.escapeVal(ev)
+					} else if _, isConst := phi.Edges[i].(*ssa.Const); !isConst {
+						fc.escapeVal(fr.val(phi.Edges[i]))
+					}
+				}
+			}
+		}
 		v := fr.havocVal(phi.Type(), "loop_"+phi.Name())
 		fr.env[phi] = v
 		fc.addFact(r, fr.typeFacts(v, st))
@@ -1281,10 +1294,12 @@ func (fr *Frame) execUnOp(b *ssa.BasicBlock, st *State, x *ssa.UnOp) {
 	case token.ARROW:
 		v := fr.havocVal(x.Type(), "recv")
 		fr.env[x] = v
-		if x.CommaOk {
-			// (value, ok)
-		}
 		fr.assume(b, fr.typeFacts(v, st))
+		if x.CommaOk && v.IsAg && len(v.Agg) == 2 {
+			fr.receivedFacts(b, st, v.Agg[0], v.Agg[1].S)
+		} else {
+			fr.receivedFacts(b, st, v, "true")
+		}
 	default:
 		fc.unsupported("unop %s", x.Op)
 		fr.env[x] = fr.havocVal(x.Type(), "unop")
@@ -1795,6 +1810,49 @@ func (fr *Frame) execSelect(b *ssa.BasicBlock, st *State, x *ssa.Select) {
 	fr.assume(b, sAnd(sApp("<=", lo, v.Agg[0].S), sApp("<", v.Agg[0].S, fmt.Sprint(n))))
 	fr.env[x] = v
 	_ = fc
+	// values of the receive cases: r_k belongs to the k-th receive state, and is the received value when that
+	// case was chosen
+	k := 2
+	for i, sst := range x.States {
+		if sst.Dir != types.RecvOnly {
+			continue
+		}
+		if k < len(v.Agg) {
+			fr.receivedFacts(b, st, v.Agg[k], sEq(v.Agg[0].S, fmt.Sprint(i)))
+		}
+		k++
+	}
+}
+
+// receivedFacts: what is assumed of a value received from a channel. It comes from another goroutine, so it is
+// not one of the objects this function allocated and kept to itself; the contract's `received` clauses (over $v)
+// are assumptions about what the senders put into the channel and are listed as such in the evidence.
+func (fr *Frame) receivedFacts(b *ssa.BasicBlock, st *State, v Val, cond string) {
+	fc := fr.fc
+	if v.IsAg {
+		return
+	}
+	fr.notLocal(b, v)
+	if fr.contract == nil || fr.inlined {
+		return
+	}
+	for _, cl := range fr.contract.Received {
+		vars := map[string]Val{}
+		for kk, pv := range fr.params {
+			vars[kk] = pv
+		}
+		vars["$v"] = v
+		env := &SpecEnv{fr: fr, vars: vars, now: st, old: fr.pre, pkg: fr.fn.Pkg.Pkg}
+		nerr := len(fc.errors)
+		t, qs := fr.evalFact(cl.E, env)
+		if len(fc.errors) > nerr {
+			// the clause does not apply to a value of this type
+			fc.errors = fc.errors[:nerr]
+			continue
+		}
+		fc.addFactQ(fr.reach[b.Index], sImp(cond, t), qs)
+		fc.assumptions[fmt.Sprintf("%s: every value received from a channel is assumed to satisfy (the senders are goroutines outside the verified subset): %s", shortFn(fr.fn), cl.Src)] = true
+	}
 }
 
 type elemHeap struct {
